@@ -101,7 +101,8 @@ CASE_TIMEOUT = 120
 
 VERSIONS = [None, "gfa1", "gfa2"]
 
-SPECIAL_LINES = ["", " ", "\t", "\t\t", "S", "S\t", "S\tA", "L", "L\tA", "L\tA\t+", "C\tA\t+\tB", "P", "P\tp", "E", "E\t*", "F\tA", "G",
+SPECIAL_LINES = ["L\tA\t+\tB\t+\t*\tID:i:5", 'L\tA\t+\tB\t+\t*\tID:J:["c", 1]', "C\tA\t+\tB\t+\t0\t*\tID:f:1.5",
+                 "L\tA\t+\tB\t+\t*\tID:B:c,1", "L\tA\t+\tB\t+\t*\tID:A:x", "L\tA\t+\tB\t+\t*\tID:H:0A", "", " ", "\t", "\t\t", "S", "S\t", "S\tA", "L", "L\tA", "L\tA\t+", "C\tA\t+\tB", "P", "P\tp", "E", "E\t*", "F\tA", "G",
                  "O", "O\t*", "U", "U\t*", "H\t", "H\t\t", "#", "##", "\n", "\r", "S\tA\t*\r", "\x00", "S\t\x00\t*", "é", "S\té\t*",
                  "\tS\tA\t*", " S\tA\t*", "S \tA\t*", "S\tA\t*\t", "S\tA\t*\t\t", "S\tA\t*\txx", "S\tA\t*\txx:", "S\tA\t*\txx:i",
                  "S\tA\t*\txx:i:", "S\tA\t*\t:i:1", "S\tA\t*\txx::1", "S\tA\t*\txx:Q:1", "E\t*\tA+\tB-\t$\t1\t0\t1\t*",
